@@ -42,7 +42,7 @@ def loc_target(it, loc):
 
 
 def effects(facts, body, depth=0):
-    key = (id(facts), body.uid)
+    key = (facts.serial, body.uid)
     if key in _memo:
         return _memo[key]
     if key in _in_progress or depth > 12:
